@@ -1963,6 +1963,10 @@ func (c ipamClient) releaseByHandle(ctx context.Context, config *IPAMConfig, blo
 					logCtx.Errorf("Error deleting block: %v", err)
 					return err
 				}
+				// Someone else deleted the block first, so it was they who released the
+				// addresses we counted; re-read rather than decrementing the handle for them.
+				logCtx.Debug("Block was deleted under us - retry")
+				continue
 			}
 			logCtx.Info("Successfully deleted empty block")
 		} else {
